@@ -183,11 +183,12 @@ func (e *Engine) SelectTag(next bool) {
 
 	if next {
 		e.cycleNextGroup()
-		newGrp := e.currentGroup()
-		newGrp.firstCell()
 	} else {
 		e.cyclePreviousGroup()
-		newGrp := e.currentGroup()
+	}
+
+	// There might be no group with candidates left.
+	if newGrp := e.currentGroup(); newGrp != nil {
 		newGrp.firstCell()
 	}
 }
